@@ -67,7 +67,8 @@ def run_case(rec, case):
     rec.evaluations += 1
     sim = scen.make_sim(srv, server_kwargs={'async_handlers': asyncm},
                         policy='random', seed=rng.randrange(1 << 30),
-                        yield_prob=rng.choice([0.0, 0.3]))
+                        yield_prob=rng.choice([0.0, 0.3]),
+                        async_handlers_coro=rng.random() < 0.7)
     R = hist.Runner(sim)
 
     def V(key, msg):
